@@ -16,15 +16,25 @@
 EXTENDS DictListOps, Json
 
 CONSTANTS Mode, Depth, MaxLen, MaxArg, IdxSpan, SliceSpan, NWalks, Seed, Emit,
-          IdSeq        \* the ids as a sequence: fixes the sort order and the draw order
+          IdSeq,       \* the ids as a sequence: fixes the sort order and the draw order
+          DerStarts    \* "full" mode: how the DERIVED list of a start state is made: a subset of
+                       \* {"none", "copy", "swapped"} (no derived list / a copy of the start list /
+                       \* the start list is the copy and the derived list the original)
 
 VARIABLES st,          \* [items, idx]
           start,       \* initial items (history)
           hist,        \* operations applied so far (history)
           last,        \* [pre, raises, ret] of the last step (for the step invariant)
-          rng, walk    \* "walk" mode only
+          rng, walk,   \* "walk" mode only
+          der,         \* the DERIVED list: the list most recently returned by a list-returning operation
+                       \* (copy, pickle, slice, query, +, -), or the other one of the pair after "swap".
+                       \* It shares the element objects with the list it came from and nothing else:
+                       \* no operation on one list may change what the other one answers.
+          der0         \* how the derived list of the start state was made (history)
 
-vars == <<st, start, hist, last, rng, walk>>
+vars == <<st, start, hist, last, rng, walk, der, der0>>
+NoDer == [present |-> FALSE, items |-> <<>>, idx |-> AllMissing]
+DerOf(s) == [present |-> TRUE, items |-> s.items, idx |-> s.idx]
 
 \* (a .cfg cannot hold negative numbers)
 IdxLo == -IdxSpan
@@ -50,11 +60,14 @@ AllOps ==
   \cup {[op |-> k, xs |-> xs] : k \in {"extend", "iadd", "union", "isub", "addop", "subop"}, xs \in ArgLists}
   \cup {[op |-> k, i |-> i, x |-> x] : k \in {"insert", "setitem"}, i \in IdxLo..IdxHi, x \in Objs}
   \cup {[op |-> k, i |-> i] : k \in {"pop", "delitem", "getitem"}, i \in IdxLo..IdxHi}
-  \cup {[op |-> k] : k \in {"poplast", "sort", "sortrev", "reverse", "copy", "pickle"}}
+  \cup {[op |-> k] : k \in {"poplast", "sort", "sortrev", "reverse", "copy", "pickle", "deepcopy", "swap"}}
   \cup {[op |-> "setslice", a |-> a, b |-> b, xs |-> xs] : a \in SliceBs, b \in SliceBs, xs \in ArgLists}
   \cup {[op |-> k, a |-> a, b |-> b] : k \in {"delslice", "getslice"}, a \in SliceBs, b \in SliceBs}
   \cup {[op |-> "query", qs |-> q] : q \in QuerySets}
   \cup {[op |-> "rename", i |-> i, nid |-> n] : i \in IdxLo..IdxHi, n \in Ids}
+
+\* from a start state WITH a derived list: the operations that change a list (the derived list must not notice)
+DerOps == {op \in AllOps : (Mutating(op) /\ (op.op = "setslice" => Len(op.xs) <= 1)) \/ op.op = "swap"}
 
 \* ------------------------------------------------------------- pseudo-random draws
 LCG(r) == (r * 75 + 74) % 65537
@@ -64,7 +77,8 @@ Pick(seq, d) == seq[(d % Len(seq)) + 1]
 Kinds == <<"append", "add", "remove", "removeid", "extend", "iadd", "union", "isub", "addop", "subop",
            "insert", "setitem", "pop", "delitem", "getitem", "poplast", "sort", "sortrev", "reverse",
            "copy", "pickle", "setslice", "delslice", "getslice", "query", "rename",
-           "insert", "setitem", "pop", "delitem", "setslice", "extend", "append", "remove">>
+           "insert", "setitem", "pop", "delitem", "setslice", "extend", "append", "remove",
+           "swap", "swap", "deepcopy", "copy">>
 DObj(d1, d2) == Obj(Pick(IdSeq, d1), d2 % 2)
 \* objects drawn with a bias towards ids that are (not) in the list make both the
 \* succeeding and the failing forms frequent
@@ -77,7 +91,7 @@ DrawOp(r) ==
     [] k \in {"extend", "iadd", "union", "isub", "addop", "subop"} -> [op |-> k, xs |-> DList(SubSeq(d, 2, 12))]
     [] k \in {"insert", "setitem"} -> [op |-> k, i |-> DIdx(d[2]), x |-> DObj(d[3], d[4])]
     [] k \in {"pop", "delitem", "getitem"} -> [op |-> k, i |-> DIdx(d[2])]
-    [] k \in {"poplast", "sort", "sortrev", "reverse", "copy", "pickle"} -> [op |-> k]
+    [] k \in {"poplast", "sort", "sortrev", "reverse", "copy", "pickle", "deepcopy", "swap"} -> [op |-> k]
     [] k = "setslice" -> [op |-> k, a |-> DSlice(d[2]), b |-> DSlice(d[3]), xs |-> DList(SubSeq(d, 4, 12))]
     [] k \in {"delslice", "getslice"} -> [op |-> k, a |-> DSlice(d[2]), b |-> DSlice(d[3])]
     [] k = "query" -> [op |-> k, qs |-> [j \in 1..(d[2] % 3) |-> Pick(IdSeq, d[2 + j])]]
@@ -91,11 +105,20 @@ OpAllowed(op, s) ==
 
 Step(op) ==
   /\ OpAllowed(op, st)
-  /\ LET r == Apply(op, st, IdLess) IN
+  /\ LET r == IF op.op # "swap" THEN Apply(op, st, IdLess)
+              ELSE IF der.present THEN R(der.items, der.idx, "none", NoRet) ELSE R(st.items, st.idx, "skip", NoRet) IN
      /\ st' = [items |-> r.items, idx |-> r.idx]
      /\ last' = [pre |-> st.items, op |-> op, raises |-> r.raises, ret |-> r.ret]
+     \* the derived list: replaced by a newly returned list, exchanged by "swap", given up after a rename
+     \* (the renamed OBJECT is shared; only the list it was renamed in gets the documented index repair),
+     \* and otherwise UNCHANGED -- whatever happens to the other list
+     /\ der' = IF op.op = "swap" THEN (IF der.present THEN DerOf(st) ELSE der)
+               ELSE IF op.op = "rename" /\ r.raises = "none" THEN NoDer
+               ELSE IF ReturnsList(op) /\ r.raises = "none" THEN [present |-> TRUE, items |-> r.ret.items, idx |-> r.ret.idx]
+               ELSE der
   /\ hist' = Append(hist, op)
   /\ start' = start
+  /\ der0' = der0
 
 Init ==
   /\ hist = <<>>
@@ -109,12 +132,14 @@ Init ==
                      \* a prefix of the id sequence, rotated: cheap variety of start orders
                      [k \in 1..n |-> Obj(IdSeq[((k + perm) % Len(IdSeq)) + 1], 0)]
   /\ st = [items |-> start, idx |-> IndexOf(start)]
+  /\ der0 \in (IF Mode = "full" THEN DerStarts ELSE {"none"})
+  /\ der = IF der0 = "none" THEN NoDer ELSE [present |-> TRUE, items |-> start, idx |-> IndexOf(start)]
   /\ last = [pre |-> start, op |-> [op |-> "init"], raises |-> "none", ret |-> NoRet]
 
 Next ==
   /\ Len(hist) < Depth
   /\ IF Mode = "full"
-     THEN \E op \in AllOps : Step(op) /\ UNCHANGED <<rng, walk>>
+     THEN \E op \in (IF der0 = "none" THEN AllOps ELSE DerOps) : Step(op) /\ UNCHANGED <<rng, walk>>
      ELSE /\ Step(DrawOp(rng))
           /\ rng' = LCG(LCG(rng) + Len(hist))
           /\ walk' = walk
@@ -123,7 +148,7 @@ Spec == Init /\ [][Next]_vars
 
 \* ------------------------------------------------------------- properties
 \* C15, first half: index and contents agree, ids unique -- on every reachable state
-InvCoherent == Coherent(st)
+InvCoherent == Coherent(st) /\ (der.present => Coherent([items |-> der.items, idx |-> der.idx]))
 
 \* C15, second half: a raising operation leaves the list unchanged; and the declarative
 \* meaning of each mutator as a relation on plain sequences (the "plain Python list with
@@ -133,7 +158,7 @@ OrderKept(pre, post) ==
   \A i, j \in 1..Len(pre) : (i < j /\ pre[i] \in Survivors(pre, post) /\ pre[j] \in Survivors(pre, post))
      => (CHOOSE k \in 1..Len(post) : post[k] = pre[i]) < (CHOOSE k \in 1..Len(post) : post[k] = pre[j])
 SetOf(s) == {s[k] : k \in 1..Len(s)}
-InvStep ==
+InvStep0 ==
   LET pre == last.pre post == st.items op == last.op IN
   /\ (last.raises \notin {"none", "skip"}) => post = pre
   /\ ~Mutating(op) => post = pre
@@ -165,14 +190,18 @@ InvStep ==
         \E lo, hi \in 0..Len(pre) : post = SubSeq(pre, 1, lo) \o op.xs \o SubSeq(pre, hi + 1, Len(pre))
   /\ ReturnsList(op) /\ last.raises = "none" => Coherent([items |-> last.ret.items, idx |-> last.ret.idx])
   /\ (op.op = "getslice") => \E lo, hi \in 0..Len(pre) : last.ret.items = SubSeq(pre, lo + 1, hi)
-  /\ (op.op \in {"copy", "pickle"}) => last.ret.items = pre
+  /\ (op.op \in {"copy", "pickle", "deepcopy"}) => last.ret.items = pre
+
+InvStep == last.op.op = "swap" \/ InvStep0
 
 \* ------------------------------------------------------------- emission
 Constr ==
   /\ Len(hist) <= Depth
-  /\ (Emit /\ Len(hist) = Depth) => PrintT(ToJson([start |-> start, ops |-> hist, walk |-> walk]))
+  /\ (Emit /\ Len(hist) = Depth) => PrintT(ToJson([start |-> start, ops |-> hist, walk |-> walk, der0 |-> der0]))
 
 \* exhaustive runs: the history variables do not add behaviour
+\* (the derived list is left out as well: it changes only by being REPLACED with a list some operation returned --
+\* whose coherence InvStep checks -- or exchanged with st; keeping it in the view squares the state space)
 View == IF Emit THEN vars ELSE <<st>>
 \* checked on EVERY transition (TLC evaluates implied actions also for successors it has seen)
 StepProp == [][InvStep']_vars
